@@ -35,6 +35,7 @@ func TestRaceFreeRunning(t *testing.T) {
 			for _, c := range []string{"c1", "c2"} {
 				_ = w.eng.Stop(context.Background(), c)
 			}
+			w.gcCancel()
 		}
 	}
 }
